@@ -79,8 +79,9 @@ def _idiom_b(fi, res: Result, R: str, argmins) -> None:
            f"after choosing ({rc[0]}, {rc[1]}) {'the row' if not row_masked else 'the column'} is not masked: it can be assigned twice", where)
     # private copy
     defs = [d for d in astq.assignments_to(fi.node, mat) if isinstance(d, ast.Assign)]
-    params = {a.arg for a in fi.node.args.args}
-    fresh = bool(defs) and all(isinstance(d.value, ast.Call) and (norm(d.value.func).split(".")[-1] in ("array", "copy", "astype", "full_like") ) for d in defs) and mat not in params
+    # (a parameter re-bound to a copy before the loop is private too)
+    fresh = bool(defs) and all(isinstance(d.value, ast.Call) and norm(d.value.func).split(".")[-1] in ("array", "copy", "astype", "full_like", "deepcopy")
+                               and d.lineno < loop.lineno for d in defs)
     res.ob(R, fresh, fi.qualname, "masking works on a private copy", f"`{mat}` is masked in place but is not a private copy of the caller's matrix", where)
     # finiteness guard leaving the loop before the choice is recorded
     guard = False
